@@ -2,10 +2,12 @@ package c03
 
 import (
 	"encoding/json"
-	"os"
 	"fmt"
+	"os"
 	"reflect"
+	"runtime"
 	"sort"
+	"strings"
 	"unsafe"
 
 	mocker "github.com/tencent/goom"
@@ -53,7 +55,6 @@ func pad6(f func()) uintptr { var p [7]uintptr; p[6] = 1; f(); return p[0] + p[6
 
 //go:noinline
 func pad7(f func()) uintptr { var p [8]uintptr; p[7] = 1; f(); return p[0] + p[7] }
-
 
 //go:noinline
 func pad8(f func()) uintptr { var p [9]uintptr; p[8] = 1; f(); return p[0] + p[8] }
@@ -461,8 +462,25 @@ func growBig(n int) int {
 // that calls the placeholder, call it (on a big stack), reset. Every call must give
 // original+bonus with the callback entered once, and the original after the reset.
 func runShared(order []string) string {
-	shared := zoo.Placeholders["NosplitLeaf"]
 	for step, name := range order {
+		if name == "GC" {
+			for i := 0; i < 2; i++ {
+				runtime.GC()
+				var junk [][]byte
+				for j := 0; j < 256; j++ {
+					junk = append(junk, make([]byte, 16+j%48))
+				}
+				_ = junk
+			}
+			runtime.GC()
+			continue
+		}
+		// every step uses a fresh variable initialised from one of two placeholder functions
+		shared := zoo.Placeholders["NosplitLeaf"]
+		if strings.HasSuffix(name, "@B") {
+			name = strings.TrimSuffix(name, "@B")
+			shared = zoo.Placeholders["RipCmpFirst"]
+		}
 		f := zoo.Shapes[name]
 		want := f(5)
 		b := mocker.Create()
@@ -491,7 +509,9 @@ func runShared(order []string) string {
 }
 
 func sharedPart(c *vk.Ctx, base int64) {
-	names := []string{"NosplitLeaf", "RipLoadFirst", "RipCmpFirst"} // same signature, no stack check (never near the known finding)
+	// same signature, no stack check (never near the known finding); "@B": through the second placeholder
+	// function; "GC": a forced collection between two steps
+	names := []string{"NosplitLeaf", "RipLoadFirst", "RipCmpFirst", "NosplitLeaf@B", "GC"}
 	idx := base
 	var rec func(p []string)
 	n := int64(0)
